@@ -47,6 +47,7 @@ FAULTS = {
     'link': [('errno', E.EPERM), ('errno', E.EMLINK), ('errno', E.EXDEV)],
 }
 CLEANUP_FAULTS = [('errno', E.EACCES), ('errno', E.EIO)]
+EXTRA_FAULTS = [('errno', E.EINVAL), ('errno', E.EIO)]
 
 
 SELFTEST_MUTANT = 'skip-cleanup-on-body-exception'
@@ -184,9 +185,10 @@ def judge(case, pre, r, faults, out, step, second_party=None, retry=True):
                             % (fs.is_symlink(pre.part), _fmt(pre.part_data), _fmt(fs.read_path(tgt))), **sig)
     if r.exc is None:
         # B2: no exception => the save completed
-        must_fail = expected_failure or any(f[2][0] == 'errno' for f in faults if f[0] != 'cleanup-unlink')
+        essential = [f for f in faults if f[0] != 'cleanup-unlink' and not f[0].startswith('extra:')]
+        must_fail = expected_failure or any(f[2][0] == 'errno' for f in essential)
         if must_fail and not (dest_now == pre.new and part_now is None and not expected_failure
-                              and all(f[2][0] != 'errno' for f in faults)):
+                              and all(f[2][0] != 'errno' for f in essential)):
             return out.fail('silent-failure', step,
                             'no exception reached the caller although %s; destination now %s'
                             % (_why(pre, faults, second_party), _fmt(dest_now)), **sig)
@@ -213,8 +215,8 @@ def judge(case, pre, r, faults, out, step, second_party=None, retry=True):
                         % (r.exc, _fmt(dest_now), _fmt(want_dest)), **sig)
     if published:
         # B7: failure after publication: the new content must be in place and complete ...
-        named = [f for f in faults if f[0] in ('open', 'chmod', 'raw.write', 'fsync', 'raw.close', 'rename', 'link')
-                 and f[2][0] in ('errno', 'disk-full')]
+        named = [f for f in faults if (f[0] in ('open', 'chmod', 'raw.write', 'fsync', 'raw.close', 'rename', 'link')
+                                        or f[0].startswith('extra:')) and f[2][0] in ('errno', 'disk-full')]
         if named:
             # ... and the failure must not be one of the steps C05 names: an error there means the save did
             # not complete, so the destination must be what it was (only clean-up after the commit may fail late)
@@ -314,6 +316,11 @@ def _faultable(trace_occ, trace, pre, after=-1):
         elif kind == 'chmod' and detail == pre.part:
             for f in FAULTS['chmod']:
                 yield k, 'chmod', (kind, occ), f
+        elif kind == 'fsync' and detail == 'dir':
+            # not a step C05 names (the directory, not the file): an implementation may treat its failure
+            # as fatal before the commit, or ignore it -- but not raise once the destination is replaced
+            for f in EXTRA_FAULTS:
+                yield k, 'extra:dir-fsync', (kind, occ), f
         elif kind in ('raw.write', 'fsync', 'raw.close'):
             for f in FAULTS[kind]:
                 yield k, kind, (kind, occ), f
